@@ -6,6 +6,7 @@ use std::io::BufWriter;
 use verif_harness::*;
 
 mod fam_path;
+mod fam_signed;
 
 pub type O = Out<BufWriter<File>>;
 
@@ -14,6 +15,7 @@ fn replay_one(o: &mut O, line: &str) {
     let f = fields(rest);
     match kind {
         "path" => fam_path::replay(o, &f),
+        "validate" => fam_signed::replay(o, &f),
         _ => {
             eprintln!("unknown replay kind {}", kind);
             std::process::exit(2);
@@ -37,6 +39,9 @@ fn main() {
     let mut rng = Rng::new(seed);
     match family {
         "path" => fam_path::generate(&mut o, tier, &mut rng),
+        "c01" => fam_signed::c01(&mut o, tier, &mut rng),
+        "c02" => fam_signed::c02(&mut o, tier, &mut rng, 2),
+        "c15" => fam_signed::c02(&mut o, tier, &mut rng, 15),
         "replay" => {
             let line = args[5..].join(" ");
             replay_one(&mut o, &line);
